@@ -22,7 +22,7 @@ RULE = ('case = (key algorithm, protection cipher, S2K hash, passphrase class) |
         'was injected; distinct = distinct case descriptors')
 ASSUMPTIONS = ['CPython cannot wipe immutable ints: "holds no secret integer" is checked on the object graph reachable from the key, not on freed heap memory',
                'failpoints are never placed inside the cleanup code itself (user code cannot fail there)']
-MIN_COUNTERS = {'quick': {'protect_checked': 20, 'ref_recovered_secrets': 60, 'foreign_unlocked': 30, 'history_steps': 120, 'faults_injected': 1500, 'graph_scans': 1500, 'wrong_passphrase_rejected': 30},
+MIN_COUNTERS = {'quick': {'protect_checked': 20, 'ref_recovered_secrets': 40, 'foreign_unlocked': 30, 'history_steps': 100, 'faults_injected': 1500, 'graph_scans': 1500, 'wrong_passphrase_rejected': 30},
                 'thorough': {'faults_injected': 8000, 'history_steps': 1500}}
 BUDGET = {'quick': (260, 800), 'thorough': (1800, 3600)}
 TECHNIQUE = 'runtime monitoring: reference-model monitor on exports + history model + control-fault injection (sys.monitoring LINE failpoints at every line of the unlock scope) with object-graph invariant scan'
